@@ -91,13 +91,71 @@ def snapshot(ip, st, v):
     return v
 
 
+def entry_state(ip, con, case, fnode, module, cls):
+    """state at function entry: symbolic inputs per the contract's parameter types, requires assumed"""
+    st = State()
+    st.ghost.update({k: v for k, v in con.ghost.items()})
+    a = fnode.args
+    pnames = [p.arg for p in a.posonlyargs + a.args + a.kwonlyargs]
+    locals_ = {}
+    kind = 'function'
+    for d in fnode.decorator_list:
+        ds = ast.unparse(d)
+        if ds in ('classmethod', 'staticmethod', 'property'):
+            kind = ds
+    meta = {'module': module, 'cls': cls, 'qual': con.qual, 'closure': ()}
+    st.push_frame({}, meta)
+    for p in pnames:
+        if p in case:
+            locals_[p] = case[p]
+        elif p in con.params:
+            locals_[p] = make_input(ip, st, p, con.params[p])
+        elif p == 'cls' and kind == 'classmethod':
+            locals_[p] = ClassRef(cls)
+        else:
+            locals_[p] = ('$default', None)
+    defaults = dict(zip([x.arg for x in (a.posonlyargs + a.args)][len(a.posonlyargs + a.args) - len(a.defaults):], a.defaults))
+    for k, d in zip(a.kwonlyargs, a.kw_defaults):
+        if d is not None:
+            defaults[k.arg] = d
+    for p in pnames:
+        if isinstance(locals_[p], tuple) and locals_[p] and locals_[p][0] == '$default':
+            if p in defaults:
+                locals_[p] = ip.eval(defaults[p], st)
+            elif con.setup is not None:
+                locals_[p] = ('$unset',)
+            else:
+                raise Unsupported('contract of %s gives no type for parameter %s' % (con.qual, p))
+    st.frame.update(locals_)
+    extra_inputs = {}
+    if con.setup is not None:
+        extra_inputs = con.setup(ip, st, st.frame, case) or {}
+        for p in pnames:
+            if st.frame[p] == ('$unset',):
+                raise Unsupported('setup of %s did not bind parameter %s' % (con.qual, p))
+    inputs = {}
+    for p, v in extra_inputs.items():
+        if isinstance(v, Sym) and v.ty in ('int', 'bool', 'str', 'bytes'):
+            inputs[p] = ('sym', v.t.decl().name(), v.ty)
+    for p in pnames:
+        v = st.frame[p]
+        if isinstance(v, Sym) and v.ty in ('int', 'bool', 'str', 'bytes'):
+            inputs[p] = ('sym', v.t.decl().name(), v.ty)
+        elif isinstance(v, (int, str, bytes, bool)) or v is None:
+            inputs[p] = ('concrete', v, None)
+    for r in con.requires:
+        v = ip.eval_spec(r, st, {})
+        st.assume(ip._z(ip.truth(v, st)))
+    return st, pnames, inputs
+
+
 def verify_function(ip, con, fuel_note=None):
     """symbolically execute the real function under its contract; appends obligations to ip.obls.
     Returns dict with counts and the per-case outcome summary."""
     fnode, module, cls = ip.repo.function(con.qual)
     summary = {'function': con.qual, 'cases': [], 'paths': 0}
     loops = loops_in_order(fnode)
-    saved = (ip.loop_specs, ip.cuts, ip.cur_func)
+    saved = (ip.loop_specs, ip.cuts, ip.cur_func, ip.cur_inputs)
     ip.loop_specs = dict(ip.loop_specs)
     for ordinal, spec in con.loops.items():
         if ordinal < 1 or ordinal > len(loops):
@@ -107,47 +165,9 @@ def verify_function(ip, con, fuel_note=None):
     ip.cur_func = con.qual
     try:
         for ci, case in enumerate(con.cases):
-            st = State()
-            st.ghost.update({k: v for k, v in con.ghost.items()})
-            a = fnode.args
-            pnames = [p.arg for p in a.posonlyargs + a.args + a.kwonlyargs]
-            locals_ = {}
-            kind = 'function'
-            for d in fnode.decorator_list:
-                ds = ast.unparse(d)
-                if ds in ('classmethod', 'staticmethod', 'property'):
-                    kind = ds
-            closure = ()
-            meta = {'module': module, 'cls': cls, 'qual': con.qual, 'closure': closure}
-            st.push_frame({}, meta)
-            for p in pnames:
-                if p in case:
-                    locals_[p] = case[p]
-                elif p in con.params:
-                    locals_[p] = make_input(ip, st, p, con.params[p])
-                elif p == 'cls' and kind == 'classmethod':
-                    locals_[p] = ClassRef(cls)
-                else:
-                    locals_[p] = ('$default', None)
-            # defaults for params not given
-            defaults = dict(zip([x.arg for x in (a.posonlyargs + a.args)][len(a.posonlyargs + a.args) - len(a.defaults):], a.defaults))
-            for k, d in zip(a.kwonlyargs, a.kw_defaults):
-                if d is not None:
-                    defaults[k.arg] = d
-            for p in pnames:
-                if isinstance(locals_[p], tuple) and locals_[p] and locals_[p][0] == '$default':
-                    if p in defaults:
-                        locals_[p] = ip.eval(defaults[p], st)
-                    else:
-                        raise Unsupported('contract of %s gives no type for parameter %s' % (con.qual, p))
-            st.frame.update(locals_)
-            if con.setup is not None:
-                con.setup(ip, st, st.frame, case)
-            for r in con.requires:
-                v = ip.eval_spec(r, st, {})
-                st.assume(ip._z(ip.truth(v, st)))
+            st, pnames, inputs = entry_state(ip, con, case, fnode, module, cls)
+            ip.cur_inputs = inputs
             old = {p: snapshot(ip, st, st.frame[p]) for p in pnames}
-            old_ghost = dict(st.ghost)
             oldobj = st.new_obj('<old>', old)
             st.ghost['$old'] = oldobj
             ip.depth = 0
@@ -190,7 +210,7 @@ def verify_function(ip, con, fuel_note=None):
             summary['cases'].append({'case': {k: repr(v) for k, v in case.items()}, 'paths': npaths})
             summary['paths'] += npaths
     finally:
-        ip.loop_specs, ip.cuts, ip.cur_func = saved
+        ip.loop_specs, ip.cuts, ip.cur_func, ip.cur_inputs = saved
     return summary
 
 
